@@ -7,6 +7,7 @@ mod awssig;
 mod common;
 mod driver;
 mod dgen;
+mod form;
 mod model;
 mod sdk;
 mod props;
